@@ -10,6 +10,8 @@ package pass_table
 
 import (
 	"context"
+	"crypto/sha256"
+	"encoding/base64"
 	"errors"
 	"fmt"
 	"net"
@@ -35,6 +37,8 @@ import (
 	"github.com/foxcpp/maddy/internal/table"
 	"github.com/foxcpp/maddy/internal/verifshim/vauth"
 	"github.com/foxcpp/maddy/internal/verifshim/vh"
+	"golang.org/x/crypto/argon2"
+	"golang.org/x/crypto/bcrypt"
 	"golang.org/x/text/secure/precis"
 	"golang.org/x/text/unicode/norm"
 )
@@ -42,17 +46,19 @@ import (
 // ---------------------------------------------------------------- scenario
 
 type c14Op struct {
-	kind    byte   // c s d p l t | B G (login <id> starts: inner = p l t; B is held at its hash verification, G when it has read its row) E (login <id> finishes) R (login <id>: let it run)
+	kind    byte   // c s d p l t h (a row computed by the reference implementation of the format is written for the account) | B G (login <id> starts: inner = p l t; B is held at its hash verification, G when it has read its row) E (login <id> finishes) R (login <id>: let it run)
 	authzid string // p
 	u       string
 	p       string // bytes
-	scheme  string // c: b a s x
+	scheme  string // c h: b a s x
+	spec    string // c h: the HashOpts of the call: "" (= scheme: b = cost 4, a = 1,8,1) | b,<cost> | a,<time>,<memory KiB>,<threads>
 	id      int    // B E R
 	inner   byte   // B
 }
 
 type c14Scn struct {
 	login   bool
+	procs   int    // > 0: the hash verifications of this history run with runtime.GOMAXPROCS(procs)
 	anorm   string // "nil" or a key of authz.NormalizeFuncs
 	mapSpec string // nil | identity | localpart | localpart_opt | static,<k>=<v>,… | regexp,<flags>,<re>,<repl>
 	ops     []c14Op
@@ -62,8 +68,8 @@ type c14Scn struct {
 
 func (o c14Op) token() string {
 	switch o.kind {
-	case 'c':
-		return "c:" + vh.HexRunes(o.u) + ":" + vh.HexBytes([]byte(o.p)) + ":" + o.scheme
+	case 'c', 'h':
+		return string(o.kind) + ":" + vh.HexRunes(o.u) + ":" + vh.HexBytes([]byte(o.p)) + ":" + o.fullSpec()
 	case 's':
 		return "s:" + vh.HexRunes(o.u) + ":" + vh.HexBytes([]byte(o.p))
 	case 'd':
@@ -82,6 +88,37 @@ func (o c14Op) token() string {
 		return string(o.kind) + strconv.Itoa(o.id)
 	}
 	panic("bad op kind")
+}
+
+func (o c14Op) fullSpec() string {
+	if o.spec == "" {
+		return o.scheme
+	}
+	return o.spec
+}
+
+// the HashOpts a spec stands for; ok=false: not a spec
+func c14SpecOpts(spec string) (scheme string, opts HashOpts, ok bool) {
+	f := strings.Split(spec, ",")
+	num := func(s string, bits int) uint64 {
+		v, err := strconv.ParseUint(s, 10, bits)
+		if err != nil || (len(s) > 1 && s[0] == '0') {
+			ok = false
+		}
+		return v
+	}
+	ok = true
+	opts = HashOpts{BcryptCost: 4, Argon2Time: 1, Argon2Memory: 8, Argon2Threads: 1}
+	switch {
+	case len(f) == 1 && (f[0] == "b" || f[0] == "a" || f[0] == "s" || f[0] == "x"):
+	case len(f) == 2 && f[0] == "b":
+		opts.BcryptCost = int(num(f[1], 31))
+	case len(f) == 4 && f[0] == "a":
+		opts.Argon2Time, opts.Argon2Memory, opts.Argon2Threads = uint32(num(f[1], 32)), uint32(num(f[2], 32)), uint8(num(f[3], 8))
+	default:
+		ok = false
+	}
+	return f[0], opts, ok
 }
 
 func c14ParseOp(tok string) (c14Op, error) {
@@ -110,8 +147,13 @@ func c14ParseOp(tok string) (c14Op, error) {
 	}
 	o := c14Op{kind: f[0][0]}
 	switch {
-	case o.kind == 'c' && len(f) == 4:
-		o.u, o.p, o.scheme = vh.UnhexRunes(f[1]), string(vh.UnhexBytes(f[2])), f[3]
+	case (o.kind == 'c' || o.kind == 'h') && len(f) == 4:
+		o.u, o.p, o.spec = vh.UnhexRunes(f[1]), string(vh.UnhexBytes(f[2])), f[3]
+		sch, _, ok := c14SpecOpts(o.spec)
+		if !ok || (o.kind == 'h' && sch == "x") {
+			return c14Op{}, bad
+		}
+		o.scheme = sch
 	case (o.kind == 's' || o.kind == 'l' || o.kind == 't') && len(f) == 3:
 		o.u, o.p = vh.UnhexRunes(f[1]), string(vh.UnhexBytes(f[2]))
 	case o.kind == 'd' && len(f) == 2:
@@ -134,7 +176,15 @@ func c14ParseLine(line string) (*c14Scn, error) {
 		return nil, fmt.Errorf("bad config tokens")
 	}
 	s.anorm, s.mapSpec = toks[3][2:], toks[4][2:]
-	for _, t := range toks[5:] {
+	rest := toks[5:]
+	if len(rest) > 0 && strings.HasPrefix(rest[0], "P:") {
+		n, err := strconv.Atoi(rest[0][2:])
+		if err != nil || n < 0 || n > 1024 {
+			return nil, fmt.Errorf("bad P: token")
+		}
+		s.procs, rest = n, rest[1:]
+	}
+	for _, t := range rest {
 		if t == "|" {
 			break
 		}
@@ -435,7 +485,7 @@ func c14Line(sys *c14Sys, scn *c14Scn) string {
 	} else {
 		b.WriteString("L0")
 	}
-	b.WriteString(" A:" + scn.anorm + " M:" + scn.mapSpec)
+	b.WriteString(" A:" + scn.anorm + " M:" + scn.mapSpec + " P:" + strconv.Itoa(scn.procs))
 	for _, o := range scn.ops {
 		b.WriteString(" " + o.token())
 	}
@@ -517,6 +567,47 @@ func c14Mgmt(err error) string {
 	return "e-other"
 }
 
+// coarse class of a parameter choice, for the input statistics
+func c14SpecClass(spec string) string {
+	sch, o, _ := c14SpecOpts(spec)
+	switch sch {
+	case "b":
+		switch c := o.BcryptCost; {
+		case c < bcrypt.MinCost:
+			return "bcrypt.cost-below-min(default-is-used)"
+		case c > bcrypt.MaxCost:
+			return "bcrypt.cost-over-max(refused)"
+		default:
+			return fmt.Sprintf("bcrypt.cost-%02d", c)
+		}
+	case "a":
+		if o.Argon2Time < 1 || o.Argon2Threads < 1 {
+			return "argon2.no-pass-or-no-lane(panic)"
+		}
+		procs := c14MachineProcs
+		lanes := "lanes-over-cpus"
+		switch l := int(o.Argon2Threads); {
+		case l == 1:
+			lanes = "lanes-1"
+		case l <= procs:
+			lanes = "lanes-2-to-cpus"
+		case l == 255:
+			lanes = "lanes-255"
+		}
+		time := strconv.Itoa(int(o.Argon2Time))
+		if o.Argon2Time > 3 {
+			time = "4-to-16"
+		}
+		if o.Argon2Memory >= 4096 {
+			lanes += ".mem-4MiB-or-more"
+		}
+		return fmt.Sprintf("argon2.time-%s.%s", time, lanes)
+	}
+	return sch
+}
+
+var c14MachineProcs = runtime.GOMAXPROCS(0)
+
 var c14Schemes = map[string]string{"b": HashBcrypt, "a": HashArgon2, "s": HashSHA256, "x": "md5"}
 
 // ---------------------------------------------------------------- reference (the property's own reading)
@@ -524,6 +615,139 @@ var c14Schemes = map[string]string{"b": HashBcrypt, "a": HashArgon2, "s": HashSH
 type c14Ref struct {
 	scheme string
 	pw     string
+	spec   string // the parameters the row was asked to be made with
+}
+
+// ---- the documented row format, written down independently of hash.go (docs/reference/auth/pass_table.md, hash.go's
+// header comment: "parameters should be stored together with the hashed password so it can be verified independently
+// of the used HashOpts"):
+//   bcrypt:<crypt(3) string of golang.org/x/crypto/bcrypt: $2a$<cost>$<salt><key>>
+//   argon2:<time>:<memory KiB>:<lanes>:<base64 salt>:<base64 argon2id key, 64 bytes>
+//   sha256:<base64 salt>:<base64 SHA-256(salt ‖ password)>
+// c14RefRow makes such a row by calling the primitives directly with the parameters that it writes into the string;
+// c14RefCheck reads a row: the parameters written in it, and whether the password reproduces its key under them.
+
+func c14EffCost(cost int) int {
+	if cost < bcrypt.MinCost {
+		return bcrypt.DefaultCost
+	}
+	return cost
+}
+
+func c14RefSalt(seed string, n int) []byte {
+	var out []byte
+	for i := 0; len(out) < n; i++ {
+		h := sha256.Sum256([]byte(fmt.Sprintf("c14-salt-%d-%s", i, seed)))
+		out = append(out, h[:]...)
+	}
+	return out[:n]
+}
+
+// ok=false: the primitives refuse these inputs (bcrypt: more than 72 bytes, cost over 31; argon2: no pass / no lane)
+func c14RefRow(spec, pw string) (row string, ok bool) {
+	sch, o, _ := c14SpecOpts(spec)
+	b64 := base64.StdEncoding.EncodeToString
+	switch sch {
+	case "b":
+		h, err := bcrypt.GenerateFromPassword([]byte(pw), o.BcryptCost)
+		if err != nil {
+			return "", false
+		}
+		return "bcrypt:" + string(h), true
+	case "a":
+		if o.Argon2Time < 1 || o.Argon2Threads < 1 {
+			return "", false
+		}
+		salt := c14RefSalt(spec+"/"+pw, []int{16, 16, 16, 8, 32}[(len(pw)+int(o.Argon2Memory))%5]) // other tools draw other salt lengths
+		key := argon2.IDKey([]byte(pw), salt, o.Argon2Time, o.Argon2Memory, o.Argon2Threads, 64)
+		return fmt.Sprintf("argon2:%d:%d:%d:%s:%s", o.Argon2Time, o.Argon2Memory, o.Argon2Threads, b64(salt), b64(key)), true
+	case "s":
+		salt := c14RefSalt(spec+"/"+pw, 32)
+		sum := sha256.Sum256(append(append([]byte{}, salt...), pw...))
+		return "sha256:" + b64(salt) + ":" + b64(sum[:]), true
+	}
+	return "", false
+}
+
+// the parameters written in a row in spec form ("b,<cost>", "a,<t>,<m>,<lanes>", "s"); cheap: nothing is derived
+func c14RowSpec(row string) (string, bool) {
+	f := strings.Split(row, ":")
+	switch {
+	case f[0] == "bcrypt" && len(f) == 2:
+		cost, err := bcrypt.Cost([]byte(f[1]))
+		return "b," + strconv.Itoa(cost), err == nil
+	case f[0] == "argon2" && len(f) == 6:
+		return "a," + f[1] + "," + f[2] + "," + f[3], true
+	case f[0] == "sha256" && len(f) == 3:
+		return "s", true
+	}
+	return "", false
+}
+
+// does the password reproduce the key of the row under the parameters written in the row?
+func c14RefCheck(row, pw string) (match, wellFormed bool) {
+	f := strings.Split(row, ":")
+	dec := base64.StdEncoding.DecodeString
+	switch {
+	case f[0] == "bcrypt" && len(f) == 2:
+		err := bcrypt.CompareHashAndPassword([]byte(f[1]), []byte(pw))
+		return err == nil, err == nil || errors.Is(err, bcrypt.ErrMismatchedHashAndPassword)
+	case f[0] == "argon2" && len(f) == 6:
+		t, e1 := strconv.ParseUint(f[1], 10, 32)
+		m, e2 := strconv.ParseUint(f[2], 10, 32)
+		l, e3 := strconv.ParseUint(f[3], 10, 8)
+		salt, e4 := dec(f[4])
+		key, e5 := dec(f[5])
+		if e1 != nil || e2 != nil || e3 != nil || e4 != nil || e5 != nil || t < 1 || l < 1 || len(key) == 0 {
+			return false, false
+		}
+		return string(argon2.IDKey([]byte(pw), salt, uint32(t), uint32(m), uint8(l), uint32(len(key)))) == string(key), true
+	case f[0] == "sha256" && len(f) == 3:
+		salt, e1 := dec(f[1])
+		key, e2 := dec(f[2])
+		if e1 != nil || e2 != nil {
+			return false, false
+		}
+		sum := sha256.Sum256(append(append([]byte{}, salt...), pw...))
+		return string(sum[:]) == string(key), true
+	}
+	return false, false
+}
+
+// do the primitives accept these inputs (c14RefRow's ok, without deriving anything)
+func c14Hashable(spec, pw string) bool {
+	sch, o, _ := c14SpecOpts(spec)
+	switch sch {
+	case "b":
+		return len(pw) <= 72 && c14EffCost(o.BcryptCost) <= bcrypt.MaxCost
+	case "a":
+		return o.Argon2Time >= 1 && o.Argon2Threads >= 1
+	}
+	return sch == "s"
+}
+
+// the spec with the defaults written out and bcrypt's cost rule applied: what a row made with it must say
+func c14CanonSpec(spec string) string {
+	sch, o, _ := c14SpecOpts(spec)
+	switch sch {
+	case "b":
+		return "b," + strconv.Itoa(c14EffCost(o.BcryptCost))
+	case "a":
+		return fmt.Sprintf("a,%d,%d,%d", o.Argon2Time, o.Argon2Memory, o.Argon2Threads)
+	}
+	return sch
+}
+
+// rows whose verification is cheap enough to be repeated by the monitor / to be run alone under a lowered GOMAXPROCS
+func c14CheapRow(row string) bool {
+	if strings.HasPrefix(row, "bcrypt:") {
+		row = row[len("bcrypt:"):]
+	}
+	if strings.HasPrefix(row, "$2") {
+		cost, err := bcrypt.Cost([]byte(row))
+		return err == nil && cost <= 7
+	}
+	return true
 }
 
 func c14BcryptKey(p string) [72]byte {
@@ -578,7 +802,9 @@ func c14NewGate() *c14Gate {
 func (g *c14Gate) open() { g.rOnce.Do(func() { close(g.release) }) }
 
 var (
-	c14Gates       sync.Map // goroutine id -> *c14Gate
+	c14Envs        sync.Map     // goroutine id -> int: GOMAXPROCS for the hash verifications called from this goroutine
+	c14ProcsMu     sync.RWMutex // write side: a verification that runs with a changed GOMAXPROCS (alone); read side: all others
+	c14Gates       sync.Map     // goroutine id -> *c14Gate
 	c14GatesOnce   sync.Once
 	c14StallsSeen  int64
 	c14HardTimeout = 90 * time.Second
@@ -601,13 +827,31 @@ func c14Goid() uint64 {
 func c14InstallGates() {
 	c14GatesOnce.Do(func() {
 		for algo, f := range HashVerify {
-			f := f
+			f, algo := f, algo
 			HashVerify[algo] = func(pass, hashSalt string) error {
-				if g, ok := c14Gates.Load(c14Goid()); ok {
+				id := c14Goid()
+				if g, ok := c14Gates.Load(id); ok {
 					gate := g.(*c14Gate)
 					gate.vOnce.Do(func() { close(gate.inVerify) })
 					gate.hold()
 				}
+				// the environment of the verifying process: a history may ask for its verifications to run on fewer CPUs than
+				// the stored hashes were made for (runtime.GOMAXPROCS(n) around the call, restored afterwards; such calls run
+				// alone so that no other history's argon2 verification sees the changed value)
+				if algo != HashArgon2 {
+					return f(pass, hashSalt) // no parallelism parameter; seconds of bcrypt in total: neither waits for, nor holds up, the others
+				}
+				if e, ok := c14Envs.Load(id); ok && e.(int) > 0 {
+					c14ProcsMu.Lock()
+					old := runtime.GOMAXPROCS(e.(int))
+					defer func() {
+						runtime.GOMAXPROCS(old)
+						c14ProcsMu.Unlock()
+					}()
+					return f(pass, hashSalt)
+				}
+				c14ProcsMu.RLock()
+				defer c14ProcsMu.RUnlock()
 				return f(pass, hashSalt)
 			}
 		}
@@ -649,6 +893,11 @@ func c14RunScn(scn *c14Scn) (res c14Result) {
 		panic(err)
 	}
 	res.line = c14Line(sys, scn)
+	if scn.procs > 0 {
+		me := c14Goid()
+		c14Envs.Store(me, scn.procs)
+		defer c14Envs.Delete(me)
+	}
 	viol := func(sig, format string, a ...interface{}) {
 		res.viols = append(res.viols, c14Viol{sig, fmt.Sprintf(format, a...)})
 	}
@@ -700,6 +949,10 @@ func c14RunScn(scn *c14Scn) (res c14Result) {
 			c14Gates.Store(gid, pl.gate)
 			defer close(pl.done)
 			defer c14Gates.Delete(gid)
+			if scn.procs > 0 {
+				c14Envs.Store(gid, scn.procs)
+				defer c14Envs.Delete(gid)
+			}
 			if o.inner == 't' {
 				pl.derr = sys.a.AuthPlain(o.u, o.p)
 				return
@@ -856,6 +1109,25 @@ func c14RunScn(scn *c14Scn) (res c14Result) {
 		}
 	}
 
+	// the row the code has just written for account k, read with the reference reading of the format: it says the parameters
+	// the call asked for, and the password just set reproduces its key under THESE parameters
+	checkRow := func(i int, k string) {
+		row, has := sys.tbl.Snapshot()[k]
+		if !has {
+			return // reported by checkKeys
+		}
+		rf := ref[k]
+		if got, ok := c14RowSpec(row); !ok || got != c14CanonSpec(rf.spec) {
+			viol("C14/table-row", "after op %d row %q says parameters %q (well-formed=%v), the operation asked for %q", i, k, got, ok, c14CanonSpec(rf.spec))
+		}
+		if c14CheapRow(row) {
+			stat("row.checked-with-the-reference")
+			if match, wf := c14RefCheck(row, rf.pw); !match {
+				viol("C14/table-row", "after op %d the password just set for %q does not reproduce the key of its row under the parameters written in the row (well-formed=%v)", i, k, wf)
+			}
+		}
+	}
+
 	for i, o := range scn.ops {
 		if len(pending) > 0 && (o.kind == 'p' || o.kind == 'l' || o.kind == 't') {
 			// an ordinary login while others are in flight is a login that starts and finishes without anything in between
@@ -905,22 +1177,65 @@ func c14RunScn(scn *c14Scn) (res c14Result) {
 			}
 			obs = append(obs, "-")
 		case 'c':
-			err := mgmt(func() error {
-				return sys.a.CreateUserHash(o.u, o.p, c14Schemes[o.scheme], HashOpts{BcryptCost: 4, Argon2Time: 1, Argon2Memory: 8, Argon2Threads: 1})
+			_, opts, _ := c14SpecOpts(o.fullSpec())
+			panicked := false
+			err := mgmt(func() (err error) {
+				defer func() {
+					if r := recover(); r != nil {
+						panicked, err = true, fmt.Errorf("panic: %v", r)
+					}
+				}()
+				return sys.a.CreateUserHash(o.u, o.p, c14Schemes[o.scheme], opts)
 			})
 			r := c14Mgmt(err)
+			if panicked {
+				r = "panic"
+			}
 			obs = append(obs, r)
 			stat("create." + r)
 			stat("create.scheme." + o.scheme)
+			stat("create.params." + c14SpecClass(o.fullSpec()))
 			k, ok := account(o.u)
 			_, exists := ref[k]
-			want := o.scheme != "x" && ok && !exists && !(o.scheme == "b" && len(o.p) > 72)
+			want := o.scheme != "x" && ok && !exists && c14Hashable(o.fullSpec(), o.p)
 			if want {
-				ref[k] = c14Ref{o.scheme, o.p}
+				ref[k] = c14Ref{o.scheme, o.p, o.fullSpec()}
 			}
 			if want != (err == nil) {
-				viol("C14/mgmt-result", "op %d create %q: succeeded=%v, the history implies %v (err: %v)", i, o.u, err == nil, want, err)
+				viol("C14/mgmt-result", "op %d create %q (%s): succeeded=%v, the history implies %v (err: %v)", i, o.u, o.fullSpec(), err == nil, want, err)
 			}
+			pushState()
+			checkKeys(i)
+			if want {
+				checkRow(i, k)
+			}
+		case 'h':
+			// a row made by the reference implementation of the documented format (another tool, another host) is written
+			// for the account, whatever was there
+			row, hashable := c14RefRow(o.fullSpec(), o.p)
+			k, ok := account(o.u)
+			r := "ok"
+			switch {
+			case !hashable:
+				r = "e-hash"
+			case !ok:
+				r = "e-name"
+			default:
+				if err := mgmt(func() error { return sys.tbl.SetKey(k, row) }); err != nil {
+					panic(err)
+				}
+				if _, exists := ref[k]; exists {
+					stat("put.over-existing-account")
+					if ref[k].pw == o.p {
+						stat("put.re-hash-of-the-current-password")
+					}
+				}
+				ref[k] = c14Ref{o.scheme, o.p, o.fullSpec()}
+			}
+			obs = append(obs, r)
+			stat("put." + r)
+			stat("put.scheme." + o.scheme)
+			stat("put.params." + c14SpecClass(o.fullSpec()))
 			pushState()
 			checkKeys(i)
 		case 's':
@@ -934,13 +1249,16 @@ func c14RunScn(scn *c14Scn) (res c14Result) {
 				if _, exists := ref[k]; !exists {
 					stat("set.on-missing-account")
 				}
-				ref[k] = c14Ref{"b", o.p}
+				ref[k] = c14Ref{"b", o.p, "b," + strconv.Itoa(bcrypt.DefaultCost)}
 			}
 			if want != (err == nil) {
 				viol("C14/mgmt-result", "op %d set-password %q: succeeded=%v, the history implies %v (err: %v)", i, o.u, err == nil, want, err)
 			}
 			pushState()
 			checkKeys(i)
+			if want {
+				checkRow(i, k)
+			}
 		case 'd':
 			err := mgmt(func() error { return sys.a.DeleteUser(o.u) })
 			r := c14Mgmt(err)
@@ -1060,6 +1378,7 @@ func c14RunScn(scn *c14Scn) (res c14Result) {
 	}
 	res.obs = strings.Join(obs, " ")
 	stat(fmt.Sprintf("hist.len.%02d", len(scn.ops)))
+	stat(fmt.Sprintf("cfg.gomaxprocs-for-verification.%d", scn.procs))
 	stat("cfg.anorm." + scn.anorm)
 	stat("cfg.map." + strings.SplitN(scn.mapSpec, ",", 2)[0])
 	stat(fmt.Sprintf("cfg.login.%v", scn.login))
@@ -1087,6 +1406,7 @@ var c14FoldPairs = [][2]string{
 func c14Foldable(s string) bool {
 	return strings.ContainsAny(s, "ßẞςŉǰıİΐΰﬁﬂﬃﬀſǆǅǄ")
 }
+
 var c14BadNames = []string{"", "a b", "Ⅳ", "ﬁsh", "\u0001x", "x­y", "ſam", "a‍b"}
 var c14Targets = []string{"acct1", "acct2", "shared", "alice", "bob"}
 
@@ -1246,8 +1566,67 @@ func c14GenMap(r *vh.Rng, bases []string) string {
 	}
 }
 
+// the HashOpts of a create / the parameters of an imported row: the grid the code accepts — bcrypt cost min..default+1 (and
+// below min = default, over max = refused), argon2 time 1..3 x small memory values x lanes 1, 2, 3, 4, the CPUs of this
+// machine, one more than that, 255 (and, rarely, no pass / no lane: argon2 panics)
+func c14GenSpec(r *vh.Rng, scheme string, forPut bool, lowProcs bool) string {
+	switch scheme {
+	case "b":
+		switch x := r.Intn(100); {
+		case x < 45:
+			return "b"
+		case x < 88:
+			return "b," + strconv.Itoa(4+r.Intn(4))
+		case x < 92:
+			return "b," + strconv.Itoa(8+r.Intn(2))
+		case x < 95:
+			return "b," + strconv.Itoa(bcrypt.DefaultCost+r.Intn(2))
+		case x < 97:
+			return "b," + strconv.Itoa(r.Intn(bcrypt.MinCost)) // below MinCost: DefaultCost is used
+		default:
+			return "b," + strconv.Itoa(bcrypt.MaxCost+1+r.Intn(3)) // refused
+		}
+	case "a":
+		x := r.Intn(100)
+		if x < 25 {
+			return "a"
+		}
+		lanes := []int{1, 2, 2, 3, 4, c14MachineProcs, c14MachineProcs + 1, c14MachineProcs + 1, 255}[r.Intn(9)]
+		if lanes > 255 {
+			lanes = 255
+		}
+		if lowProcs {
+			// with GOMAXPROCS lowered, 2 lanes are already more than there are CPUs; hundreds of lane goroutines would share the one
+			// CPU with the bcrypt work of the other histories (the Go scheduler serves the global queue every 61st switch)
+			lanes = []int{1, 2, 2, 2, 3, 4, 4, 8, 2}[r.Intn(9)]
+		}
+		time := 1 + r.Intn(3)
+		mem := []int{0, 8, 9, 16, 32, 64, 100, 1024}[r.Intn(8)]
+		if r.Chance(14) { // now and then more passes / more memory than any default
+			time = []int{4, 5, 6, 8, 12, 16}[r.Intn(6)]
+		} else if r.Chance(3) {
+			mem = []int{4096, 16384}[r.Intn(2)]
+		}
+		if !forPut && x >= 97 {
+			if r.Bool() {
+				time = 0
+			} else {
+				lanes = 0
+			}
+		}
+		return fmt.Sprintf("a,%d,%d,%d", time, mem, lanes)
+	}
+	return scheme
+}
+
 func c14Gen(r *vh.Rng, maxOps int) *c14Scn {
 	scn := &c14Scn{login: r.Chance(90)}
+	switch x := r.Intn(100); {
+	case x < 22:
+		scn.procs = 1 // "more lanes than CPUs" on every machine
+	case x < 27:
+		scn.procs = 2
+	}
 	switch x := r.Intn(100); {
 	case x < 25:
 		scn.anorm = "nil"
@@ -1415,6 +1794,22 @@ func c14Gen(r *vh.Rng, maxOps int) *c14Scn {
 		}
 		return anyName(), pw(false)
 	}
+	// a row made by the reference implementation is written for account k (spelled `name`): mostly a re-hash of the current
+	// password with other parameters / another scheme, else another password
+	putOp := func(k, name string) c14Op {
+		o := c14Op{kind: 'h', u: name, scheme: []string{"b", "a", "a", "a", "s"}[r.Intn(5)]}
+		o.spec = c14GenSpec(r, o.scheme, true, scn.procs > 0)
+		if q, has := cur[k]; has && r.Chance(55) {
+			o.p = q
+			scn.genStats = append(scn.genStats, "put.gen.re-hash")
+		} else {
+			o.p = pw(true)
+		}
+		if kk, ok := c14Account(o.u); ok && c14Hashable(o.fullSpec(), o.p) {
+			setCur(kk, o.p)
+		}
+		return o
+	}
 	sets := 0
 	// overlapping logins: 2-4 logins, mostly for one account, with the current / the previous / another account's / a wrong
 	// password, started so that at least two are in flight together, possibly with a password change, a deletion or a
@@ -1496,12 +1891,15 @@ func c14Gen(r *vh.Rng, maxOps int) *c14Scn {
 						delCur(kk)
 					}
 					if r.Chance(50) { // and created again with another password
-						o := c14Op{kind: 'c', u: name, p: pw(false), scheme: []string{"b", "a", "s"}[r.Intn(3)]}
+						o := c14Op{kind: 'c', u: name, p: pw(false), scheme: []string{"b", "a", "a", "s"}[r.Intn(4)]}
+						o.spec = c14GenSpec(r, o.scheme, false, scn.procs > 0)
 						scn.ops = append(scn.ops, o)
-						if kk, ok := c14Account(o.u); ok && !(o.scheme == "b" && len(o.p) > 72) {
+						if kk, ok := c14Account(o.u); ok && c14Hashable(o.fullSpec(), o.p) {
 							setCur(kk, o.p)
 						}
 					}
+				case y < 90: // the account's row is replaced by one made elsewhere: other parameters, the same or another password
+					scn.ops = append(scn.ops, putOp(k, name))
 				default: // management of another account
 					o := c14Op{kind: 'd', u: mgmtName()}
 					scn.ops = append(scn.ops, o)
@@ -1531,8 +1929,11 @@ func c14Gen(r *vh.Rng, maxOps int) *c14Scn {
 			if j == 1 && o.p == scn.ops[0].p {
 				o.p += "2"
 			}
+			if r.Chance(50) {
+				o.spec = c14GenSpec(r, o.scheme, true, scn.procs > 0)
+			}
 			scn.ops = append(scn.ops, o)
-			if k, ok := c14Account(o.u); ok && !(o.scheme == "b" && len(o.p) > 72) {
+			if k, ok := c14Account(o.u); ok && c14Hashable(o.fullSpec(), o.p) {
 				if _, exists := cur[k]; !exists {
 					setCur(k, o.p)
 				}
@@ -1562,9 +1963,12 @@ func c14Gen(r *vh.Rng, maxOps int) *c14Scn {
 			default:
 				sch = "x"
 			}
-			o := c14Op{kind: 'c', u: mgmtName(), p: pw(true), scheme: sch}
+			if scn.procs > 0 && sch != "x" && r.Chance(50) {
+				sch = "a" // the scheme with a parallelism parameter
+			}
+			o := c14Op{kind: 'c', u: mgmtName(), p: pw(true), scheme: sch, spec: c14GenSpec(r, sch, false, scn.procs > 0)}
 			scn.ops = append(scn.ops, o)
-			if k, ok := c14Account(o.u); ok && sch != "x" && !(sch == "b" && len(o.p) > 72) {
+			if k, ok := c14Account(o.u); ok && sch != "x" && c14Hashable(o.fullSpec(), o.p) {
 				if _, exists := cur[k]; !exists {
 					setCur(k, o.p)
 				}
@@ -1583,10 +1987,11 @@ func c14Gen(r *vh.Rng, maxOps int) *c14Scn {
 				_, existed := cur[k]
 				delCur(k)
 				if existed && r.Chance(45) { // the account is created again, with another password
-					c := c14Op{kind: 'c', p: pw(false), scheme: []string{"b", "a", "s"}[r.Intn(3)]}
+					c := c14Op{kind: 'c', p: pw(false), scheme: []string{"b", "a", "a", "s"}[r.Intn(4)]}
+					c.spec = c14GenSpec(r, c.scheme, false, scn.procs > 0)
 					c.u, _ = c14Variant(r, k)
 					scn.ops = append(scn.ops, c)
-					if kk, ok := c14Account(c.u); ok && !(c.scheme == "b" && len(c.p) > 72) {
+					if kk, ok := c14Account(c.u); ok && c14Hashable(c.fullSpec(), c.p) {
 						setCur(kk, c.p)
 					}
 					scn.genStats = append(scn.genStats, "hist.account-recreated")
@@ -1608,9 +2013,20 @@ func c14Gen(r *vh.Rng, maxOps int) *c14Scn {
 				o.authzid = pool[r.Intn(len(pool))]
 			}
 			scn.ops = append(scn.ops, o)
-		case x < 92:
+		case x < 90:
 			u, p := authCreds()
 			scn.ops = append(scn.ops, c14Op{kind: 'l', u: u, p: p})
+		case x < 95:
+			ks := curKeys()
+			if len(ks) > 0 && r.Chance(75) {
+				k := ks[r.Intn(len(ks))]
+				name, _ := c14Variant(r, k)
+				scn.ops = append(scn.ops, putOp(k, name))
+			} else {
+				name := mgmtName()
+				k, _ := c14Account(name)
+				scn.ops = append(scn.ops, putOp(k, name))
+			}
 		default:
 			o := c14Op{kind: 't', p: pw(true)}
 			ks := curKeys()
@@ -1714,6 +2130,7 @@ func TestVerifC14Hist(t *testing.T) {
 	for i, scn := range scns {
 		c14Emit(out, scn, results[i])
 	}
+
 }
 
 // DESIGN §6 (j): static map alice→acct1 (not idempotent), same credentials through PLAIN and LOGIN.
@@ -1818,7 +2235,9 @@ func TestVerifC14Skel(t *testing.T) {
 			keys = append(keys, fn+":missing")
 			continue
 		}
-		for _, c := range tsrc.Calls(fd.Body, func(c string) bool { return strings.HasSuffix(c, ".CompareKey") || strings.HasSuffix(c, ".Enforce") || strings.HasSuffix(c, ".String") && strings.HasPrefix(c, "precis.") }, nil) {
+		for _, c := range tsrc.Calls(fd.Body, func(c string) bool {
+			return strings.HasSuffix(c, ".CompareKey") || strings.HasSuffix(c, ".Enforce") || strings.HasSuffix(c, ".String") && strings.HasPrefix(c, "precis.")
+		}, nil) {
 			keys = append(keys, fn+":"+c)
 		}
 	}
